@@ -17,6 +17,8 @@ the logical bytes.  `evs` = `w<len>`/`f` list, `c<k>` (pieces of k), or `-`.  `e
 never-issued id) | `m` (malformed next body) | `j` (malformed cancel body) | `o` (open of an unknown resource) | `w` (a second stream of the same resource is opened and pulled once) | `q` (a `next`
 parked on a gated producer + `cancel` from elsewhere while it is parked: prints `* ack`).
 `conc <idx> <srv> <chunk> <depth> <n> <rounds> <L>`: n clients open simultaneously, per round.
+`many <idx> <srv> <chunk> <depth> <n> <L>`: n streams live (partly pulled) at once on one router, then each finished.
+Script tokens may be repeated: `n*64`.
 `cnext <idx> <srv> <chunk> <depth> <k> <stream> <evs> <aux>`: k connections pull ONE stream concurrently.
 `aux` is the harness's replay recipe (ignored here).
 `duo <idx> <srv> <kind> <chunk> <depth> <streamA> <evsA> <endA> <streamB> <evsB> <endB> <script> <auxA> <auxB>`:
@@ -123,8 +125,16 @@ def runScript (F : Facts) (known : Bool) (id fuel : Nat) (msgs : List Msg) : Lis
     | "k" => runScript F known id fuel msgs ts (sv.cancel id) ("-" :: acc)
     | _ => none
 
+/-- `n*64,c` → 64 × `n`, then `c` -/
+def expandScript (script : String) : List String :=
+  (script.splitOn ",").flatMap fun t =>
+    match t.splitOn "*" with
+    | [tok, k] => List.replicate (natOf k) tok
+    | _ => [t]
+
 def policyOf : String → Option Policy
   | "n" => some .alternate
+  | "f" => some .alternate        -- fragmented request bytes: a transport matter, same schedule
   | "p" => some .consumerFirst    -- slow producer: the handler is always waiting
   | "c" => some .producerFirst    -- slow consumer: the producer runs ahead until the buffer is full
   | _ => none
@@ -152,7 +162,7 @@ def raw (idx kind comp chunk depth speed stream evs end_ script : String) : Stri
       | none => idx ++ " diverges"
       | some msgs =>
         let (sv, id) := ({} : Server).open msgs
-        match runScript F known id (msgs.length + 2) msgs (script.splitOn ",") sv [] with
+        match runScript F known id (msgs.length + 2) msgs (expandScript script) sv [] with
         | none => idx ++ " bad-op"
         | some out =>
           let mark := if channelAgrees (natOf depth) pol msgs then [] else ["!channel"]
@@ -168,6 +178,7 @@ def needsBeve : String → Option Bool
   | "vec" => some false
   | "file" => some false       -- pull_to_file(_async): the committed file's content (commit protocol: C10)
   | "call" => some false       -- pull_consume(_async) with a read-to-end consumer
+  | "c1" => some false         -- … whose consumer reads 1 byte at a time, then 2..7, then the rest
   | "cerr" => some false       -- … whose consumer reads everything and returns Err
   | "cpart" => some false      -- … whose consumer reads 16 bytes and returns them
   | "cpanic" => some false     -- … whose consumer panics after 16 bytes
@@ -205,7 +216,7 @@ def hl (idx client puller kind comp chunk stream evs end_ : String) : String :=
           else if puller = "cpart" then
             let part := logical.take 16
             joinSp ([idx, "ok", toString part.length] ++ (if known then [toString (fnv part).toNat] else []))
-          else if puller = "vec" || puller = "consume" || puller = "file" || puller = "call" then
+          else if puller = "vec" || puller = "consume" || puller = "file" || puller = "call" || puller = "c1" then
             joinSp ([idx, "ok", toString logical.length] ++ (if known then [toString (fnv logical).toNat] else []))
           else idx ++ " ok"
   | _, _, _, _ => idx ++ " bad-op"
@@ -303,6 +314,10 @@ def step (st : Unit) (ws : List String) : Unit × String :=
     (st, hl idx client puller kind comp chunk stream evs end_)
   | ["cnext", idx, _srv, chunk, _depth, _k, stream, evs, _aux] => (st, cnext idx chunk stream evs)
   | ["conc", idx, _srv, chunk, _depth, n, rounds, L] => (st, conc idx chunk n rounds L)
+  | ["many", idx, _srv, chunk, _depth, n, L] =>
+    -- n streams live at once on one router, one pull from each, then each drained: per stream the same summary
+    let r := concRound Gen.svsFacts (natOf chunk) (natOf n) (natOf L) 0
+    (st, joinSp ([idx, "many", if r.1 then "distinct" else "same"] ++ r.2))
   | ["duo", idx, _srv, kind, chunk, _depth, sa, ea, enda, sb, eb, endb, script, _auxa, _auxb] =>
     (st, duo idx kind chunk sa ea enda sb eb endb script)
   | _ :: idx :: _ => (st, idx ++ " bad-op")
